@@ -74,7 +74,7 @@ func configs(r *ev.Run) []cfg {
 				d = 6
 			}
 			out = append(out, cfg{C: proch.Config{Name: fmt.Sprintf("n%d-own%d", n, own), Sets: sets, OwnKey: ownKey, Msgs: msgs()},
-				NSets: r.Pick(2, 3), MsgIdx: []int{0, 1}, ObsKeys: obs, Depth: d, InMsgs: []int{0, 2}, InVars: rng(0, len(proch.InVariants)), MaxState: 400000})
+				NSets: nsetsFor(r, n), MsgIdx: []int{0, 1}, ObsKeys: obs, Depth: d, InMsgs: []int{0, 2}, InVars: rng(0, len(proch.InVariants)), MaxState: 400000})
 		}
 	}
 	// non-initial states that need wall-clock time to be reached: the message was observed, did not reach
@@ -90,7 +90,7 @@ func configs(r *ev.Run) []cfg {
 		}
 	}
 	// large sets: signer choice restricted to q+1 guardians at three placements, own key first/middle/last/absent
-	for _, n := range []int{7, 13, 19} {
+	for _, n := range []int{5, 7, 8, 10, 12, 13, 19} {
 		q := proch.Quorum(n)
 		for pi, start := range []int{0, (n - q - 1) / 2, n - q - 1} {
 			for oi, ownKey := range []int{0, n / 2, n - 1, 500} {
@@ -117,6 +117,14 @@ func configs(r *ev.Run) []cfg {
 	w := func(c cfg) int { return len(c.ObsKeys) * len(c.ObsKeys) * c.Depth * (1 + len(c.C.Sets[0])/8) }
 	sort.SliceStable(out, func(i, j int) bool { return w(out[i]) > w(out[j]) })
 	return out
+}
+
+// nsetsFor: three guardian sets (a third update) for the smallest configurations also in the quick tier.
+func nsetsFor(r *ev.Run, n int) int {
+	if n <= 2 || r.Thorough() {
+		return 3
+	}
+	return 2
 }
 
 func menu(c cfg) proch.Enabled {
